@@ -28,10 +28,20 @@ type c08TOp struct {
 	D int    `json:"d,omitempty"` // adv / recover: milliseconds
 	M string `json:"m,omitempty"` // adv: "" both clocks | "caller" | "server"; outage: kind
 	V string `json:"v,omitempty"` // allow: entry point, "" AllowN | "ctx" AllowNCtx | "now" Allow | "nowctx" AllowCtx (n = 1, clocks coupled)
+	X int    `json:"x,omitempty"` // allow with V "ctx": 0 context.Background, k>0 the case's context k; cancel: context k
+}
+
+// c08TCtx: a request context of the case, created when the case starts.
+// "cancel": live until a cancel op names it. "deadline": expires T ms of
+// bubble time after the start.
+type c08TCtx struct {
+	Kind string `json:"kind"`
+	T    int    `json:"t,omitempty"`
 }
 
 type c08TCase struct {
 	Lims []c08TLim `json:"lims"`
+	Ctxs []c08TCtx `json:"ctxs,omitempty"`
 	Ops  []c08TOp  `json:"ops"`
 }
 
@@ -160,8 +170,26 @@ func c08TokenInterp(t *testing.T, c c08TCase, rule int) (v kit.Verdict) {
 	ntDenyThenGrant := false
 	ntOutageDeny, ntRecovered := false, false
 	stalled := false
+	ctxRace := false
 	res := kit.Bubble(t, func() {
 		store := redis.New(srv.addr)
+		ctxs := make([]context.Context, len(c.Ctxs))
+		for i, x := range c.Ctxs {
+			var cancel context.CancelFunc
+			if x.Kind == "deadline" {
+				ctxs[i], cancel = context.WithTimeout(context.Background(), time.Duration(x.T)*time.Millisecond)
+			} else {
+				ctxs[i], cancel = context.WithCancel(context.Background())
+			}
+			defer cancel()
+		}
+		cancels := make([]context.CancelFunc, len(c.Ctxs))
+		for i := range ctxs {
+			var cc context.CancelFunc
+			ctxs[i], cc = context.WithCancel(ctxs[i]) // the handle the cancel op uses
+			cancels[i] = cc
+			defer cc()
+		}
 		base := c08Epoch // caller clock origin: data, independent of the bubble clock
 		nl := len(c.Lims)
 		lims := make([]*limit.TokenLimiter, nl)
@@ -173,6 +201,8 @@ func c08TokenInterp(t *testing.T, c c08TCase, rule int) (v kit.Verdict) {
 		outDenied := make([]bool, nl)  // a denial in the current outage
 		outTokens := make([]int64, nl) // tokens requested in the current outage
 		onRedis := make([]bool, nl)    // restart rule: served by Redis since the last restart
+		detectCtx := make([]int, nl)   // context (1-based, 0 none) of the first request of the current outage
+		firstInOutage := make([]bool, nl)
 		for i, l := range c.Lims {
 			keys[i] = fmt.Sprintf("c08t%d_%d", c08Seq, i)
 			lims[i] = limit.NewTokenLimiter(l.Rate, l.Burst, store, keys[i])
@@ -257,9 +287,17 @@ func c08TokenInterp(t *testing.T, c c08TCase, rule int) (v kit.Verdict) {
 		}
 
 		// one request (or a batch of identical concurrent requests) against limiter l
-		request := func(what string, l int, n int64, callers int, variant string) bool {
+		request := func(what string, l int, n int64, callers int, variant string, x int) bool {
 			now := base.Add(time.Duration(callerMs) * time.Millisecond)
 			sec := now.Unix()
+			ctx := context.Background()
+			if variant == "ctx" && x > 0 && x <= len(ctxs) {
+				ctx = ctxs[x-1]
+				classes["request-context-"+c.Ctxs[x-1].Kind] = true
+			} else {
+				x = 0
+			}
+			deadBefore := ctx.Err() != nil
 			if (variant == "now" || variant == "nowctx") && (n != 1 || !time.Now().Equal(now)) {
 				variant = "" // Allow()/AllowCtx() read time.Now(): only meaningful while the bubble clock is the caller clock
 			}
@@ -269,7 +307,7 @@ func c08TokenInterp(t *testing.T, c c08TCase, rule int) (v kit.Verdict) {
 			if callers == 1 {
 				switch variant {
 				case "ctx":
-					got[0] = lims[l].AllowNCtx(context.Background(), now, int(n))
+					got[0] = lims[l].AllowNCtx(ctx, now, int(n))
 					classes["entry-AllowNCtx"] = true
 				case "now":
 					got[0] = lims[l].Allow()
@@ -297,6 +335,23 @@ func c08TokenInterp(t *testing.T, c c08TCase, rule int) (v kit.Verdict) {
 				return false
 			}
 			evals := srv.evalCount("{"+keys[l]+"}.tokens") - evalsBefore
+			if deadBefore || ctx.Err() != nil {
+				// The statement is silent on requests whose own context is dead: the
+				// decision is not judged. The generator asks for more than burst in
+				// such requests, which neither bucket can grant and which changes
+				// neither bucket; anything else means the bubble clock drifted across
+				// a deadline (retry back-off jitter) and the case is set aside.
+				if n <= int64(c.Lims[l].Burst) {
+					ctxRace = true
+					return false
+				}
+				classes["request-with-dead-context-unspecified"] = true
+				return true
+			}
+			if down && !firstInOutage[l] {
+				firstInOutage[l] = true
+				detectCtx[l] = x
+			}
 			granted := 0
 			for _, g := range got {
 				if g {
@@ -350,11 +405,11 @@ func c08TokenInterp(t *testing.T, c c08TCase, rule int) (v kit.Verdict) {
 			what := fmt.Sprintf("op %d %+v", i, o)
 			switch o.K {
 			case "allow":
-				if !request(what, o.L, int64(o.N), 1, o.V) {
+				if !request(what, o.L, int64(o.N), 1, o.V, o.X) {
 					break ops
 				}
 			case "callow":
-				if !request(what, o.L, int64(o.N), o.C, "") {
+				if !request(what, o.L, int64(o.N), o.C, "", 0) {
 					break ops
 				}
 			case "adv":
@@ -387,14 +442,27 @@ func c08TokenInterp(t *testing.T, c c08TCase, rule int) (v kit.Verdict) {
 					outages++
 					for l := range outDenied {
 						outDenied[l], outTokens[l] = false, 0
+						firstInOutage[l], detectCtx[l] = false, 0
 					}
 					classes["outage-"+o.M] = true
 					if outages > 1 {
 						classes["second-outage"] = true
 					}
 				}
+			case "cancel":
+				if o.X > 0 && o.X <= len(cancels) {
+					cancels[o.X-1]()
+					if down {
+						classes["context-cancelled-during-outage"] = true
+					}
+				}
 			case "recover":
 				if down {
+					for l := range detectCtx {
+						if x := detectCtx[l]; x > 0 && ctxs[x-1].Err() != nil {
+							classes["outage-noticed-under-context-dead-at-recovery"] = true
+						}
+					}
 					srv.setMode(c08Up)
 					srv.restartServer()
 					down = false
@@ -415,7 +483,18 @@ func c08TokenInterp(t *testing.T, c c08TCase, rule int) (v kit.Verdict) {
 				onRedis[l] = false
 			}
 		}
-		if fail == "" && !stalled && rule == c08RuleRestart && outages > 0 {
+		if fail == "" && !stalled && !ctxRace && rule == c08RuleOutage && outages > 0 {
+			// "returns to Redis once it answers again", whatever happened to the
+			// contexts of earlier requests: one more request per limiter after the
+			// last recovery and a second of settling must be decided by the script
+			coupled(1000)
+			for l := range lims {
+				if !request(fmt.Sprintf("final request of limiter %d, 1 s after the end of the case (Redis up)", l), l, 1, 1, "", 0) {
+					break
+				}
+			}
+		}
+		if fail == "" && !stalled && !ctxRace && rule == c08RuleRestart && outages > 0 {
 			// liveness after a real restart: a limiter may lose single requests to
 			// dead pooled connections (each failure discards 4 of them; the pool
 			// holds some 10-20), but it must come back. One request per second and
@@ -433,7 +512,7 @@ func c08TokenInterp(t *testing.T, c c08TCase, rule int) (v kit.Verdict) {
 				}
 				coupled(1000)
 				for l := range lims {
-					if !onRedis[l] && !request(fmt.Sprintf("probe %d of limiter %d after the last restart", round, l), l, 1, 1, "") {
+					if !onRedis[l] && !request(fmt.Sprintf("probe %d of limiter %d after the last restart", round, l), l, 1, 1, "", 0) {
 						break
 					}
 				}
@@ -447,7 +526,7 @@ func c08TokenInterp(t *testing.T, c c08TCase, rule int) (v kit.Verdict) {
 		if outages > 0 {
 			time.Sleep(11 * time.Second)
 		}
-		if fail != "" || stalled {
+		if fail != "" || stalled || ctxRace {
 			return
 		}
 
@@ -479,6 +558,9 @@ func c08TokenInterp(t *testing.T, c c08TCase, rule int) (v kit.Verdict) {
 	v.Classes = c08Classes(classes)
 	if stalled {
 		return kit.Verdict{Excluded: true, Classes: []string{"excluded-real-time-stall"}}
+	}
+	if ctxRace {
+		return kit.Verdict{Excluded: true, Classes: []string{"excluded-context-expired-around-a-judged-call"}}
 	}
 	if fail != "" {
 		v.Fail = fail
@@ -595,7 +677,10 @@ func c08TokenGen(rt *rapid.T) c08TCase {
 // outage produces one failed command per limiter, and a case has at most 5
 // (limiter, outage) pairs: the redis wrapper's breaker (protection = 5
 // failures per 10 s window) can then never start rejecting commands by itself,
-// which would be an outage the generator did not ask for.
+// which would be an outage the generator did not ask for. Requests through
+// AllowNCtx carry context.Background or one of the case's contexts; requests
+// under a context that may already be dead ask for more than burst (see the
+// interpreter) and are charged to the same budget of 5.
 func c08OutageGen(rt *rapid.T) c08TCase {
 	return c08OutageGenModes(rt, []string{"loading", "err"}, true)
 }
@@ -610,21 +695,64 @@ func c08OutageGenModes(rt *rapid.T, modes []string, concurrent bool) c08TCase {
 		model[i] = &c08Bucket{rate: int64(l.Rate), burst: int64(l.Burst)}
 		resc[i] = &c08Rescue{rate: int64(l.Rate), burst: int64(l.Burst)}
 	}
+	// request contexts: live cancellable ones (cancelled by a later op) and deadlines
+	nctx := rapid.IntRange(0, 3).Draw(rt, "nctx")
+	for i := 0; i < nctx; i++ {
+		x := c08TCtx{Kind: rapid.SampledFrom([]string{"cancel", "cancel", "deadline"}).Draw(rt, "ctx-kind")}
+		if x.Kind == "deadline" {
+			x.T = rapid.IntRange(500, 15000).Draw(rt, "ctx-deadline-ms")
+		}
+		c.Ctxs = append(c.Ctxs, x)
+	}
+	cancelled := make([]bool, nctx)
+	noticedUnder := make([]bool, nctx) // a limiter noticed the current outage in a request under this (still live) context
 	var nowMs int64
+	// maybeDead: the context may be dead when the request is made (for deadlines
+	// with a 2 s margin: the bubble clock runs ahead of nowMs by retry back-off)
+	maybeDead := func(x int) bool {
+		if x == 0 {
+			return false
+		}
+		if cancelled[x-1] {
+			return true
+		}
+		return c.Ctxs[x-1].Kind == "deadline" && nowMs >= int64(c.Ctxs[x-1].T)-2000
+	}
 	down := false
 	outages := 0
+	fails := 0               // commands that may count as failures in the wrapper's breaker so far
 	seen := make([]bool, nl) // limiter already noticed the current outage
+	pending := func() int {  // limiters that will still fail one command in the current outage
+		p := 0
+		if down {
+			for _, s := range seen {
+				if !s {
+					p++
+				}
+			}
+		}
+		return p
+	}
 	n := rapid.IntRange(4, 60).Draw(rt, "nops")
 	for i := 0; i < n; i++ {
 		kinds := []string{"allow", "allow", "allow", "allow", "allow", "allow", "adv", "adv"}
 		if concurrent {
 			kinds = append(kinds, "callow")
 		}
-		if !down && (outages+1)*nl <= 5 {
+		if !down && fails+nl <= 5 {
 			kinds = append(kinds, "outage", "outage")
 		}
 		if down {
 			kinds = append(kinds, "recover")
+		}
+		for x := range c.Ctxs {
+			if c.Ctxs[x].Kind == "cancel" && !cancelled[x] {
+				kinds = append(kinds, "cancel")
+				if down && noticedUnder[x] {
+					kinds = append(kinds, "cancel", "cancel", "cancel")
+				}
+				break
+			}
 		}
 		kind := rapid.SampledFrom(kinds).Draw(rt, "kind")
 		switch kind {
@@ -644,7 +772,27 @@ func c08OutageGenModes(rt *rapid.T, modes []string, concurrent bool) c08TCase {
 			}
 			if kind == "allow" {
 				o.N = c08PickN(rt, avail, model[l].burst)
-				o.V = rapid.SampledFrom([]string{"", "", "", "ctx"}).Draw(rt, "entry")
+				o.V = rapid.SampledFrom([]string{"", "", "ctx", "ctx"}).Draw(rt, "entry")
+				if down && !seen[l] && nctx > 0 && rapid.Bool().Draw(rt, "notice-under-ctx") {
+					o.V = "ctx" // the request that notices the outage carries one of the case's contexts
+				}
+				if o.V == "ctx" && nctx > 0 {
+					o.X = rapid.IntRange(0, nctx).Draw(rt, "ctx")
+					if down && !seen[l] && o.X == 0 {
+						o.X = rapid.IntRange(1, nctx).Draw(rt, "ctx-nonbg")
+					}
+					if maybeDead(o.X) {
+						if fails+pending()+1 <= 5 {
+							// unspecified request: more than burst, changes neither bucket; it may
+							// cost the breaker one failure (context.DeadlineExceeded is not acceptable to it)
+							o.N = int(model[l].burst) + rapid.IntRange(1, 2).Draw(rt, "over")
+							fails++
+							c.Ops = append(c.Ops, o)
+							continue
+						}
+						o.X = 0
+					}
+				}
 			} else {
 				o.N = rapid.IntRange(1, 3).Draw(rt, "cn")
 				o.C = rapid.IntRange(2, 8).Draw(rt, "callers")
@@ -662,8 +810,12 @@ func c08OutageGenModes(rt *rapid.T, modes []string, concurrent bool) c08TCase {
 					model[l].allow(sec, nowMs, int64(o.N))
 				}
 			}
-			if down {
+			if down && !seen[l] {
 				seen[l] = true
+				fails++
+				if o.X > 0 {
+					noticedUnder[o.X-1] = true
+				}
 			}
 			c.Ops = append(c.Ops, o)
 		case "adv":
@@ -695,7 +847,23 @@ func c08OutageGenModes(rt *rapid.T, modes []string, concurrent bool) c08TCase {
 			for l := range seen {
 				seen[l] = false
 			}
+			for x := range noticedUnder {
+				noticedUnder[x] = false
+			}
 			c.Ops = append(c.Ops, c08TOp{K: "outage", M: rapid.SampledFrom(modes).Draw(rt, "outage-kind")})
+		case "cancel":
+			var live []int
+			for x := range c.Ctxs {
+				if c.Ctxs[x].Kind == "cancel" && !cancelled[x] {
+					if down && noticedUnder[x] {
+						live = append(live, x, x, x)
+					}
+					live = append(live, x)
+				}
+			}
+			x := live[rapid.IntRange(0, len(live)-1).Draw(rt, "which-ctx")]
+			cancelled[x] = true
+			c.Ops = append(c.Ops, c08TOp{K: "cancel", X: x + 1})
 		case "recover":
 			down = false
 			d := int64(rapid.SampledFrom([]int{1000, 1500, 3000, 11000}).Draw(rt, "settle"))
